@@ -25,8 +25,9 @@ META = {
                    "comparing nrexcl and the generated pairs with the real pipeline on generated force fields (blocks with distances "
                    "0-4, link-made bonds, branched and cyclic residue graphs)."),
     'level_note': ("Trusted: Coq kernel, harness, networkx single_source_shortest_path (modelled by the ball, validated by the runs). "
-                   "No axioms. Explicit exclusions of blocks are carried through unchanged (C01); links in the C14 generator define "
-                   "no exclusions of their own."),
+                   "No axioms. Explicit exclusion lines of blocks (also with more than two atoms, read as GROMACS reads them: first atom "
+                   "against each of the others) are generated and judged on the implementation (kept as written, pairs excluded exactly "
+                   "per statement); links in the C14 generator define no exclusions of their own."),
     'rule': ("cases = force fields with 2-3 blocks (nrexcl drawn from 0-4, equal or mixed), 1-3 bond-making links and (30%) a bond made by a by_atom_id link x residue "
              "graphs of 2-6 residues; plus all ordered pairs of distances 0..4 on a two-block chain; non-trivial = mixed distances "
              "with at least one generated pair; distinct by (force-field text, graph)"),
@@ -42,8 +43,17 @@ def gen_case(rng, pair=None):
     blocks = []
     for i in range(nb):
         nrexcl = pair[i] if pair else rng.choice([0, 1, 1, 2, 3, 4])
-        blocks.append(ffgen.gen_block(rng, f'R{"ABC"[i]}', natoms=rng.randint(1, 3), nrexcl=nrexcl))
+        explicit = (not pair) and rng.random() < 0.35
+        blocks.append(ffgen.gen_block(rng, f'R{"ABC"[i]}', natoms=rng.randint(3, 5) if explicit else rng.randint(1, 3), nrexcl=nrexcl))
         blocks[-1]['inters'].pop('exclusions', None)
+        if explicit:
+            # explicit exclusion lines of the block, also with more than two atoms (GROMACS: the first atom
+            # of a line is excluded from each of the others, the others not from one another)
+            rows = []
+            for _ in range(rng.randint(1, 2)):
+                idx = rng.sample(range(len(blocks[-1]['atoms'])), rng.randint(2, min(4, len(blocks[-1]['atoms']))))
+                rows.append({'atoms': idx, 'params': [], 'meta': {}})
+            blocks[-1]['inters']['exclusions'] = rows
     # bond-making links between every pair of residue names, first atoms
     links = []
     names = [b['name'] for b in blocks]
@@ -122,12 +132,29 @@ def run(ctx):
         atoms = out['links']['atoms']
         e_of = {a['key']: by[a['resname']]['nrexcl'] for a in atoms}
         edges = out['links']['edges']
-        before = [tuple(sorted(r['atoms'])) for r in out['map']['inters'].get('exclusions', [])]
-        after = [tuple(sorted(r['atoms'])) for r in out['links']['inters'].get('exclusions', [])]
-        gen_impl = list(after)
-        for p in before:
-            if p in gen_impl:
-                gen_impl.remove(p)
+        before_rows = [tuple(r['atoms']) for r in out['map']['inters'].get('exclusions', [])]
+        after_rows = [tuple(r['atoms']) for r in out['links']['inters'].get('exclusions', [])]
+        gen_rows = list(after_rows)
+        for p in before_rows:
+            if p in gen_rows:
+                gen_rows.remove(p)
+            else:
+                ctx.violation('spec', f"C14 fails on the implementation: the explicit exclusion line {p} of a block is lost or altered by link application",
+                              {'ff': ff, 'graph': g, 'failure': f'explicit exclusion {p} lost'})
+        if before_rows:
+            ctx.feature('explicit_block_exclusions')
+            if any(len(p) > 2 for p in before_rows):
+                ctx.feature('exclusion_line_with_3_or_more_atoms')
+
+        def pairs_of(rows):
+            # GROMACS [ exclusions ]: the first atom of a line against each of the others
+            return {tuple(sorted((r[0], x))) for r in rows for x in r[1:]}
+        before = pairs_of(before_rows)
+        after = pairs_of(after_rows)
+        gen_impl = [tuple(sorted(p)) for p in gen_rows]
+        if any(len(p) != 2 for p in gen_rows):
+            ctx.violation('spec', f"C14 fails on the implementation: generated exclusion lines are not pairs: {gen_rows[:4]}",
+                          {'ff': ff, 'graph': g, 'failure': 'generated line is not a pair'})
         m_impl = out['links']['nrexcl']
         keys = [a['key'] for a in atoms]
         dist = bfs_dist(edges, keys)
@@ -144,7 +171,7 @@ def run(ctx):
         for a, b in itertools.combinations(keys, 2):
             d = dist[a].get(b, 10 ** 6)
             excluded = d <= m_impl or (a, b) in explicit
-            want = d <= e_of[a] or d <= e_of[b] or (a, b) in set(before)
+            want = d <= e_of[a] or d <= e_of[b] or (a, b) in before
             if excluded != want:
                 bad.append(f"atoms {a},{b} at bond distance {d} with block distances {e_of[a]},{e_of[b]}: excluded={excluded}")
                 break
